@@ -3,7 +3,8 @@
     Part I (over Q, list, nat) must be closed under the global context.
     Part II (over R, Coquelicot) may depend on the standard library's classical axioms for the reals. *)
 From SKN Require Import Base.Util Model.Gnn Proofs.GnnProofs Proofs.GnnCalculus.
-From Coq Require Import QArith Reals Morphisms.
+Set Warnings "-notation-overridden,-ambiguous-paths".
+From Coq Require Import QArith Reals Morphisms Lra.
 From Coquelicot Require Import Coquelicot.
 Local Open Scope nat_scope.
 
@@ -175,9 +176,9 @@ Definition idq (x : Q) : Q := x.
     zero-degree node and a self loop, sparse features and a non-trivial renumbering, and the model computes. *)
 Example c19_nonvacuous_forward :
   wf_smat (length ex_A) ex_A /\ f_nrow ex_F = length ex_A /\ inverse_on (length ex_A) [2; 0; 1] [1; 2; 0] /\
-  map (map Qred) (forward idq idq ex_L ex_A ex_F) = [[(21 # 4)%Q; 0%Q]; [(7 # 4)%Q; 0%Q]; [(55 # 4)%Q; (1 # 2)%Q]] /\
+  map (map Qred) (forward idq idq ex_L ex_A ex_F) = [[(37 # 4)%Q; 0%Q]; [(7 # 4)%Q; 0%Q]; [(151 # 12)%Q; 0%Q]] /\
   map (map Qred) (forward idq idq ex_L (perm_adj [2; 0; 1] [1; 2; 0] ex_A) (perm_feats [1; 2; 0] ex_F))
-  = [[(7 # 4)%Q; 0%Q]; [(55 # 4)%Q; (1 # 2)%Q]; [(21 # 4)%Q; 0%Q]].
+  = [[(7 # 4)%Q; 0%Q]; [(151 # 12)%Q; 0%Q]; [(37 # 4)%Q; 0%Q]].
 Proof.
   split; [apply wf_smatb_ok; reflexivity|]. split; [reflexivity|].
   split; [apply inverse_onb_ok; reflexivity|]. split; vm_compute; reflexivity.
